@@ -84,11 +84,14 @@ impl History {
             fs::create_dir_all(parent)?;
         }
 
+        // Write the new content next to the file and rename it into place, so that a crash or a
+        // failed write never leaves a truncated history behind (which would read back as empty)
+        let tmp_path = self.path.with_extension("json.tmp");
         let file = OpenOptions::new()
             .create(true)
             .write(true)
             .truncate(true)
-            .open(&self.path)
+            .open(&tmp_path)
             .with_context(|| format!("Failed to create history file: {}", self.path.display()))?;
 
         let mut writer = BufWriter::new(file);
@@ -97,6 +100,9 @@ impl History {
         // A BufWriter dropped without flushing swallows the write error
         writer
             .flush()
+            .with_context(|| format!("Failed to write history file: {}", self.path.display()))?;
+        drop(writer);
+        fs::rename(&tmp_path, &self.path)
             .with_context(|| format!("Failed to write history file: {}", self.path.display()))?;
 
         Ok(())
